@@ -60,6 +60,9 @@ class Client(kernel.Actor):
         import falcon
         if self.disconnected or self.closed is not None:
             raise falcon.WebSocketDisconnected()
+        if not isinstance(text, str):
+            raise TypeError("send_text needs str, got %s" % type(text).__name__)
+        text.encode("utf-8")      # a real websocket cannot send lone surrogates: UnicodeEncodeError
         self.transcript.append((self.sim.stamp(), text))
         self.sim.note("tx", "c%d" % self.idx)
         if self.slow and not self.sim.draining:
